@@ -10,6 +10,9 @@ at the top-level directory.
 */
 
 #include "slu_mt_ddefs.h"
+#ifdef SLU_MT_VERIF
+#include "slu_mt_verif.h"
+#endif /* SLU_MT_VERIF */
 
 
 int_t
@@ -159,6 +162,9 @@ pdgstrf_column_dfs(
 		parent[krep] = EMPTY;
 		repfnz[krep] = kperm;
 		if ( ispruned[krep] ) {
+#ifdef SLU_MT_VERIF
+		    SLUV_TSAN_ACQUIRE(&ispruned[krep]);
+#endif /* SLU_MT_VERIF */
 		    if ( SINGLETON( supno[krep] ) )
 			xdfs = xlsub_end[krep];
 		    else xdfs = xlsub[krep];
@@ -212,6 +218,9 @@ pdgstrf_column_dfs(
 				    krep = chrep; /* Go deeper down G(L^t) */
 				    repfnz[krep] = chperm;
 				    if ( ispruned[krep] ) {
+#ifdef SLU_MT_VERIF
+		    SLUV_TSAN_ACQUIRE(&ispruned[krep]);
+#endif /* SLU_MT_VERIF */
 					if ( SINGLETON( supno[krep] ) )
 					    xdfs = xlsub_end[krep];
 					else xdfs = xlsub[krep];
@@ -297,12 +306,19 @@ pdgstrf_column_dfs(
     if ( samesuper == NO ) { /* starts a new supernode */
 	nsuper = NewNsuper(pnum, pxgstrf_shared, &Glu->nsuper);
 	xsup[nsuper] = jcol;
+#ifdef SLU_MT_VERIF
+	SLUV_EVENT(SLUV_E_NSUPER, pnum, jcol, nsuper, 0, 0, 0);
+	SLUV_YIELD(SLUV_Y_NSUPER_LSUB);
+#endif /* SLU_MT_VERIF */
 	
 	/* Copy column jcol; also reserve space to store pruned graph */
 	if ((mem_error = Glu_alloc(pnum, jcol, 2*no_lsub, LSUB, &ito, 
 				  pxgstrf_shared)))
 	    return mem_error;
 	xlsub[jcol] = ito;
+#ifdef SLU_MT_VERIF
+	SLUV_EVENT(SLUV_E_LSUB_ALLOC, pnum, jcol, ito, 2*no_lsub, 0, 0);
+#endif /* SLU_MT_VERIF */
 	lsub = Glu->lsub;
 	for (ifrom = 0; ifrom < nextl; ++ifrom) {
 	    krow = col_lsub[ifrom];
